@@ -26,6 +26,9 @@ def groups_world():
         'Dbl': {'module_group': 'double', 'params': [], 'inputs': [bc('Modt')], 'data': 'generator'},
         'Dblg': {'module_group': 'double', 'group': 'x:y:z', 'params': [], 'inputs': [bc('Dbl')], 'data': 'list_of_numpy'},
         'End': {'name': 'the_end', 'params': [], 'inputs': [bn('x:y:z:dblg'), bn('dd')], 'data': 'continues'},
+        # explicit names are used verbatim (also when they end in `_task`); derived names drop the suffix
+        'Exp': {'name': 'export_task', 'group': 'reports:monthly', 'params': [], 'inputs': [bc('Plain')], 'data': 'json'},
+        'SomeDerivedTask': {'name': None, 'params': [], 'inputs': [bn('reports:monthly:export_task')], 'data': 'json'},
     }
     return {
         'name': 'groups',
@@ -59,7 +62,9 @@ def values_for(tier):
 def pvals_world(values, objs):
     tasks = {
         'V': {'group': 'vals', 'params': [P('v'), P('ign', default=0, ignore=True), P('dflt', default=3, dpdv=True), P('pth', default=None, dtype='Path'),
-                                          P('nic', nic='other_name', default='n')], 'inputs': [], 'data': 'json'},
+                                          P('nic', nic='other_name', default='n'),
+                                          # names that are prefixes of one another, next character below `=`: order is by NAME
+                                          P('dim', default=8), P('dim2', default=16), P('x-y', default=1), P('x', default=2), P('x.z', default=3)], 'inputs': [], 'data': 'json'},
         'W': {'params': [P('w', default=1)], 'inputs': [bc('V')], 'data': 'json'},
     }
     variants = {}
@@ -98,7 +103,11 @@ def _impl_paths(desc, vids, run_some=False):
     try:
         for vid in vids:
             base = os.path.join(root, 'data')
-            ch = w.chain(vid, base_dir=base)
+            try:
+                ch = w.chain(vid, base_dir=base)
+            except Exception as e:  # noqa
+                out[vid] = {'param': {'__error__': f'{type(e).__name__}: {str(e)[:200]}'}}
+                continue
             rec = {}
             for fn, t in ch.tasks.items():
                 p = t.data_path
@@ -207,6 +216,11 @@ def _shard(args):
         for mode in ('param', 'name'):
             if mode not in ref[vid]:
                 continue
+            if '__error__' in impl[vid].get('param', {}):
+                if mode == 'param':
+                    res.violations.append(Violation(f'{desc["name"]}: a configuration of the 1.4.0 layout can no longer be built', f'{desc["name"]}/{vid}: {impl[vid]["param"]["__error__"]}',
+                                                    {'desc': desc if desc['name'] != 'pvals' else _slim(desc, vid), 'vid': vid}))
+                continue
             for fn, exp in ref[vid][mode].items():
                 got = impl[vid].get(mode, {}).get(fn, '<task missing>')
                 res.add('evaluations')
@@ -216,7 +230,7 @@ def _shard(args):
                         f'{desc["name"]}: {mode}-mode data path differs from the 1.4.0 scheme ({_what_differs(got, exp)})',
                         f'{desc["name"]}/{vid} task {fn}: data_path {got!r}, release-1.4.0 scheme {exp!r}',
                         {'desc': desc if desc['name'] != 'pvals' else _slim(desc, vid), 'vid': vid}))
-        if 'listing' in ref[vid]:
+        if 'listing' in ref[vid] and 'listing' in impl[vid]:
             res.add('evaluations')
             if impl[vid]['listing'] != ref[vid]['listing']:
                 a, b = set(impl[vid]['listing']), set(ref[vid]['listing'])
